@@ -3513,3 +3513,112 @@ func c03R18(c *Ctx, r *Report) {
 	r.Check(nT > 0 && len(hits) == 0, rule, fn.Name(), "an unknown type name is reported", where,
 		"the conversion gives up on a type name without a diagnostic: the declaration is accepted with an unknown type, which every later check skips")
 }
+
+// ---- C10.R10: the length of an array type is read with the literal grammar, and must be a constant -----------
+
+func init() {
+	lateInits = append(lateInits, func() {
+		props["C10"].Quick = append(props["C10"].Quick, c10R10)
+		props["C03"].Quick = append(props["C03"].Quick, c10R10)
+		props["C04"].Quick = append(props["C04"].Quick, c10R10)
+		props["C10"].Explanation += " (R10) the length in an array type `[N]T` is evaluated by a function that reaches the integer-literal parser (parseIntLiteral) and not a scanf-style conversion, and a length that does not evaluate is reported instead of silently making the type a dynamic array."
+	})
+}
+
+func c10R10(c *Ctx, r *Report) {
+	const rule = "C10.R10"
+	r.Describe(rule, "typechecker.TypeFromTypeNodeWithContext, case *ast.ArrayType: the function applied to the Len expression reaches parseIntLiteral within the package and no function on the way calls fmt.Sscan*; the clause adds a diagnostic on a path where the length did not evaluate")
+	fn := c.LookupFn(pkgTC, "TypeFromTypeNodeWithContext")
+	pil := c.LookupFn(pkgTC, "parseIntLiteral")
+	bagAdd := c.LookupFn("internal/diagnostics", "(*DiagnosticBag).Add")
+	if !r.Anchor(rule, fn != nil && pil != nil && bagAdd != nil, "typechecker.TypeFromTypeNodeWithContext / parseIntLiteral / DiagnosticBag.Add") {
+		return
+	}
+	info := fn.Info()
+	var cc *ast.CaseClause
+	ast.Inspect(fn.Decl.Body, func(x ast.Node) bool {
+		if cl, ok := x.(*ast.CaseClause); ok && cc == nil {
+			for _, t := range caseTypes(info, cl) {
+				if nt := namedOf(t); nt != nil && nt.Obj().Name() == "ArrayType" {
+					cc = cl
+				}
+			}
+		}
+		return true
+	})
+	if !r.Anchor(rule, cc != nil, "TypeFromTypeNodeWithContext: case *ast.ArrayType") {
+		return
+	}
+	// reaches: f (transitively, same package, depth <= 4) calls parseIntLiteral; scans: some function on the way calls fmt.Sscan*
+	var reach func(f *types.Func, depth int, seen map[*types.Func]bool) (bool, bool)
+	reach = func(f *types.Func, depth int, seen map[*types.Func]bool) (reaches, scans bool) {
+		if f == pil.Obj {
+			return true, false
+		}
+		hf := c.FnOf(f)
+		if hf == nil || hf.Decl == nil || hf.Decl.Body == nil || depth > 4 || seen[f] {
+			return false, false
+		}
+		seen[f] = true
+		for _, cl := range callsIn(hf.Decl.Body, true) {
+			g := callee(hf.Info(), cl)
+			if g == nil || g.Pkg() == nil {
+				continue
+			}
+			if g.Pkg().Path() == "fmt" && strings.HasPrefix(g.Name(), "Sscan") {
+				scans = true
+			}
+			if g.Pkg() == fn.Obj.Pkg() {
+				r2, s2 := reach(g, depth+1, seen)
+				reaches = reaches || r2
+				scans = scans || s2
+			}
+		}
+		return
+	}
+	evaluated, scanned := false, false
+	for _, st := range cc.Body {
+		for _, cl := range callsIn(st, false) {
+			usesLen := false
+			for _, a := range cl.Args {
+				if strings.HasSuffix(exprStr(a), ".Len") {
+					usesLen = true
+				}
+			}
+			f := callee(info, cl)
+			if !usesLen || f == nil || f.Pkg() != fn.Obj.Pkg() {
+				continue
+			}
+			r1, s1 := reach(f, 0, map[*types.Func]bool{})
+			evaluated = evaluated || r1
+			scanned = scanned || s1
+		}
+	}
+	r.Check(evaluated && !scanned, rule, fn.Name(), "the array length is read with the integer-literal grammar", c.pos(cc.Pos()),
+		"the length of `[N]T` is converted with a decimal scan: `[0x3]i32` is an array of 0 elements and `[1_0]i32` one of 1 — the literal does not keep its value")
+	reports := false
+	for _, st := range cc.Body {
+		ast.Inspect(st, func(x ast.Node) bool {
+			cl, ok := x.(*ast.CallExpr)
+			if !ok {
+				return true
+			}
+			f := callee(info, cl)
+			if f == nil {
+				return true
+			}
+			if f == bagAdd.Obj {
+				reports = true
+			} else if hf := c.FnOf(f); hf != nil && hf.Decl != nil && hf.Decl.Body != nil && f.Pkg() == fn.Obj.Pkg() && f != fn.Obj && nodeCalls(hf.Info(), hf.Decl.Body, bagAdd.Obj) != nil {
+				for _, a := range cl.Args {
+					if strings.Contains(exprStr(a), ".Len") {
+						reports = true
+					}
+				}
+			}
+			return true
+		})
+	}
+	r.Check(reports, rule, fn.Name(), "a length that is not a constant is reported", c.pos(cc.Pos()),
+		"an array type whose length does not evaluate silently becomes a dynamic array: `const N := 2; let a: [N]i32 = [1, 2, 3];`, `[1+1]i32` and `[-1]i32` accept three elements")
+}
